@@ -6,6 +6,7 @@ import (
 	"path/filepath"
 	"sort"
 	"strings"
+	"sync/atomic"
 	"testing"
 	"testing/synctest"
 	"time"
@@ -47,6 +48,36 @@ func runMeasureCrash(e *simcore.Env, tp *simcore.Tape) {
 		}
 		m := wl.NewMeasureModel(s)
 		m.Tolerate = func(string) bool { return true } // value fidelity is C01's subject
+		// Stalled maintenance: the stallN-th creation of a part directory (the output of a flush or of a merge)
+		// blocks until the driver has performed stallOps further operations, so that ingestion, flushes and merges
+		// overlap (e.g. a newer part is flushed and published while an older merge is still writing its output).
+		stallN := int32(tp.Choose(7)) // 0 = nobody is stalled
+		stallOps := tp.Range(1, 3)
+		if stallN > 0 {
+			e.FreeRunning() // which creation is the stallN-th, and what overlaps it, is decided by the real scheduler
+		}
+		var partDirs atomic.Int32
+		var noMoreStalls atomic.Bool // set before the final quiescent point: "faults have stopped"
+		stallCh := make(chan struct{})
+		stalled := make(chan struct{}, 1)
+		simos.SetFailer(func(_ int, op *simos.Op) error {
+			if stallN > 0 && !noMoreStalls.Load() && op.Kind == simos.OpMkdirAll && pathClass(op.Path) == "part-dir" && partDirs.Add(1) == stallN {
+				stalled <- struct{}{}
+				select {
+				case <-stallCh:
+				case <-time.After(3 * time.Minute): // never outlive the history (e.g. a stall that begins during shutdown)
+				}
+			}
+			return nil
+		})
+		stallLeft := -1
+		releaseStall := func() {
+			if stallLeft >= 0 {
+				close(stallCh)
+				stallLeft = -1
+				synctest.Wait()
+			}
+		}
 		time.Sleep(time.Duration(tp.Range(1, 600)) * time.Minute)
 		synctest.Wait()
 		e.Event("schema tags=%v fields=%v flags=%v", s.Tags, s.Fields, flags)
@@ -56,6 +87,19 @@ func runMeasureCrash(e *simcore.Env, tp *simcore.Tape) {
 		nOps := tp.Range(3, 12)
 		for op := 0; op < nOps; op++ {
 			e.Step()
+			select {
+			case <-stalled:
+				stallLeft = stallOps
+				e.Probe("fault.maintenance_stalled_at_part_directory_creation")
+				e.Event("maintenance stalled at its part-directory creation for %d operations", stallOps)
+			default:
+			}
+			if stallLeft == 0 {
+				releaseStall()
+				e.Event("stalled maintenance released")
+			} else if stallLeft > 0 {
+				stallLeft--
+			}
 			if tp.Weighted(3, 2) == 0 {
 				time.Sleep(time.Duration(tp.Range(1, 3000)) * time.Microsecond)
 				synctest.Wait()
@@ -73,6 +117,7 @@ func runMeasureCrash(e *simcore.Env, tp *simcore.Tape) {
 					return
 				}
 				m.Ack(rows)
+				synctest.Wait() // observe the journal at a quiescent point only (background loops run in real parallel)
 				// a batch whose rows fall into two segments is two sub-batches: tables flush independently, the
 				// prefix claim is made per table (group, segment, shard)
 				byDay := map[int64]*batchInfo{}
@@ -103,6 +148,14 @@ func runMeasureCrash(e *simcore.Env, tp *simcore.Tape) {
 				sample = append(sample, "advance "+d.String())
 			}
 		}
+		noMoreStalls.Store(true)
+		synctest.Wait()
+		select {
+		case <-stalled:
+			stallLeft = 0
+		default:
+		}
+		releaseStall()
 		// final quiescent point: everything acknowledged so far has had two flush periods
 		lastAck := simos.Len()
 		time.Sleep(time.Duration(2*flushSec+1) * time.Second)
